@@ -27,7 +27,10 @@ CASE_TIMEOUT = {"quick": 300, "thorough": 3000}
 def enumerate_cases(tier, seed):
     yield from _gen.cases(tier, seed)
     th = tier == "thorough"
-    units = rot(UNITS_DIR, seed, 9 if th else 2) + rot(UNITS_SYM[:2], seed, 1)
+    units = rot(UNITS_DIR, seed, 11 if th else 2) + rot(UNITS_SYM[:2], seed, 1)
+    for iso in ("[<][13CH2]C[>]", "[<]C([2H])([2H])O[>]", "[<]C[35Cl][>]" if False else "[<]C(Cl)C[>]"):
+        if iso not in units:
+            units.append(iso)  # isotope labels and elements with several abundant isotopes: always in the boundary menu
     prefixes = rot(PREFIXES, seed, 5 if th else 1)
     suffixes = rot(SUFFIXES, seed, 4 if th else 1) + [None]
     for u in units:
